@@ -703,6 +703,8 @@ impl Check for C16 {
     }
 
     fn run(&self, ctx: &Ctx, rep: &mut Reporter) {
+        // recorded first so that a capped run still carries a sample
+        rep.sample(|| json!({"variant": "plain", "rows": [[2, "a"], [null, "b"], [1, null]], "aggs": "SUM(a)", "group": "c", "where": "none", "having": "agg>k", "sql": "SELECT c, SUM(a) FROM t GROUP BY c HAVING (SUM(a) > 1)"}));
         let kmax = ctx.opt("kmax").and_then(|s| s.parse().ok()).unwrap_or(ctx.tier.pick(4usize, 6usize));
         let kfull = ctx.opt("kfull").and_then(|s| s.parse().ok()).unwrap_or(ctx.tier.pick(3usize, 4usize));
         rep.bound("max_rows_enumerated_tables", json!(kmax));
@@ -761,7 +763,6 @@ impl Check for C16 {
                 return;
             }
         }
-        rep.sample(|| json!({"variant": "plain", "rows": [[2, "a"], [null, "b"], [1, null]], "aggs": "SUM(a)", "group": "c", "where": "none", "having": "agg>k", "sql": "SELECT c, SUM(a) FROM t GROUP BY c HAVING (SUM(a) > 1)"}));
     }
 
     fn replay(&self, ctx: &Ctx, case: &Value, rep: &mut Reporter) {
